@@ -344,7 +344,7 @@ func setup(t *testing.T) *fixture {
 	settings.SetDefault(defs.AuthLockoutDurationSetting, "1s")
 	f.st.users["warmup"] = defs.User{Name: "warmup", Password: f.hashes[0], Permissions: []string{defs.LogonPermission}}
 	for _, via := range []string{"basic", "payload"} {
-		if o := f.attempt("Warmup", rightPassword(0), via); o != "ok" {
+		if o := f.attempt("warmup", rightPassword(0), via); o != "ok" {
 			t.Fatalf("harness: warm-up login via %s with the right password observed %q", via, o)
 		}
 		if o := f.attempt("warmup", wrongPassword(0), via); o != "denied" {
@@ -498,6 +498,13 @@ func (f *fixture) execute(c Case, names [3]string, lockout int64) vkit.Outcome {
 	states := [3][]acct{{fresh}, {fresh}, {fresh}}
 	labels := map[string]bool{}
 	relockObserved := false
+	// tainted[u]: a checked failure was observed on account u at an instant
+	// that is the lockout deadline in some model state, and the account has
+	// been neither refused nor logged in since. It never decides a verdict;
+	// it only gives the divergence that follows the root-cause signature of
+	// the exact-deadline defect also when the pruner freedom (a second model
+	// state with a smaller count) delays or reshapes its detection.
+	var tainted [3]bool
 	var trace []string
 	var now int64
 
@@ -571,6 +578,20 @@ func (f *fixture) execute(c Case, names [3]string, lockout int64) vkit.Outcome {
 			}
 			next = dedup(next)
 
+			wasTainted := tainted[op.User]
+			switch obs {
+			case "denied":
+				for _, s := range cands {
+					if c.Limit > 0 && s.until >= 0 && s.until == now {
+						tainted[op.User] = true
+					}
+				}
+			case "ok", "refused":
+				if len(next) > 0 {
+					tainted[op.User] = false
+				}
+			}
+
 			// classification (primary state = the deterministic reading)
 			lockedNow := c.Limit > 0 && prim.until >= 0 && now < prim.until
 			if prim.until >= 0 && c.Limit > 0 {
@@ -618,7 +639,7 @@ func (f *fixture) execute(c Case, names [3]string, lockout int64) vkit.Outcome {
 				return vkit.Outcome{
 					Labels: []string{"limit=" + strconv.Itoa(c.Limit)},
 					Fail: &vkit.Failure{
-						Sig: signature(c, prim, now, obs, allowed),
+						Sig: signature(c, prim, wasTainted, obs, allowed),
 						Observed: fmt.Sprintf("limit=%d lockout=%v; attempt #%d.%d on %q at t=%v (right password: %v, account exists: %v, via %s) observed %q; history: %s",
 							c.Limit, time.Duration(lockout), i, k, baseNames[op.User], time.Duration(now), op.Right, exists, op.Via, obs, strings.Join(trace, "; ")),
 						Expected: fmt.Sprintf("%s (model: %d consecutive failures, lockout deadline %s)", obsList(allowed), prim.count, deadlineText(prim)),
@@ -660,14 +681,22 @@ func deadlineText(s acct) string {
 	return "t=" + time.Duration(s.until).String()
 }
 
+const sigExactDeadline = "password checked while locked: lockout due from a failure at the exact end instant of the previous lockout"
+
 // signature names the region of the failure, not the input.
-func signature(c Case, prim acct, now int64, obs string, allowed []step) string {
+func signature(c Case, prim acct, tainted bool, obs string, allowed []step) string {
 	exp := obsList(allowed)
+	if tainted {
+		// Any divergence on an account whose last checked failure fell on an
+		// exact deadline instant, before the account was next refused or
+		// logged in, is a consequence of that failure not starting a lockout.
+		return sigExactDeadline
+	}
 	switch {
 	case exp == "refused" && (obs == "ok" || obs == "denied"):
 		switch {
 		case prim.atExpiry:
-			return "password checked while locked: lockout due from a failure at the exact end instant of the previous lockout"
+			return sigExactDeadline
 		case prim.locks <= 1 && !prim.afterClear:
 			return "password checked while locked: first lockout"
 		case prim.locks <= 1:
@@ -741,7 +770,7 @@ func TestC24(t *testing.T) {
 		Gen:      genCase,
 		Oracle:   oracle(t),
 		Fixed:    fixedCases,
-		Quick:    600,
-		Thorough: 6000,
+		Quick:    1500,
+		Thorough: 8000,
 	})
 }
